@@ -64,7 +64,9 @@ def gen_cases(ctx):
         per = 2
     ops += [0x2000 + ctx.rng.randrange(0x2000) for _ in range(300)]
     ops += [0x4130, 0x4303, 0x1300, 0x12b0, 0x1122, 0x1204, 0x40f2, 0x4292, 0xc312, 0xd232, 0x3fff, 0x3c00]
-    return _lines_for(ctx, ops, per, 0.55, 0.05) + G.flag_boundary_cases(ctx.rng), nstrata
+    pcsp = G.pcsp_cases(ctx.rng)
+    ctx.notes["pcsp"] = len(pcsp)
+    return _lines_for(ctx, ops, per, 0.55, 0.05) + G.flag_boundary_cases(ctx.rng) + pcsp, nstrata
 
 
 def _line(case):
@@ -187,7 +189,8 @@ def correspondence(ctx, corr):
         k = G.classify(c[0])[0]
         classes[k] = classes.get(k, 0) + 1
     corr["streams"]["sim"] = {"lines": len(lines), "strata": nstrata, "per_class": classes,
-                              "armed_break_io": sum(1 for c in cases if c[3] != "-")}
+                              "armed_break_io": sum(1 for c in cases if c[3] != "-"),
+                              "pc_sp_grid": ctx.notes.get("pcsp", 0)}
     corr["streams"]["dislen"] = {"lines": len(dl), "exhaustive_first_words": 65536}
     corr["streams"]["simrun"] = {"lines": len(sr)}
     corr["streams"]["answer_kinds"] = kinds
@@ -328,6 +331,13 @@ def oracle(ctx, orc, focus=None):
          {"r6": 20, "sp": 0x0802}, [0x4036, 0x12b0, 0x5606, 0x4130, 0x12b0, 0x5606, 0x4130, 0x4130]),
         ("p3", ".msp430\n.org 0xf000\nstart:\n  mov.w #0x8000, r7\n  mov.w #0x0200, r8\n  mov.w r7, 0(r8)\n  add.w @r8+, r7\n  addc.w #0, r9\n  ret\n.org 0xfffe\n  dw start\n",
          {"r7": 0, "r8": 0x0202, "r9": 1, "sp": 0x0802}, None),
+        # PUSH with SP as the operand register in every source mode: "SP - 2 -> SP, src -> @SP" (the source is evaluated
+        # with the decremented SP); S = 0x0800 is the SP -run starts with
+        ("p4", ".msp430\n.org 0xf000\nstart:\n  mov.w sp, r10\n  push.w sp\n  pop r4\n  push.w #0x3333\n  push.w #0x2222\n"
+               "  mov.w #0x1111, -2(sp)\n  push.w 2(sp)\n  pop r5\n  mov.w #0x1111, -2(sp)\n  push.w @sp\n  pop r6\n"
+               "  mov.w #0x1111, -2(sp)\n  push.w @sp+\n  mov.w sp, r7\n  sub.w r10, r7\n  mov.w @sp, r8\n  add.w #4, sp\n  ret\n"
+               ".org 0xfffe\n  dw start\n",
+         {"r4": 0x07fe, "r5": 0x2222, "r6": 0x1111, "r7": 0xfffc, "r8": 0x1111, "sp": 0x0802}, None),
     ]
     for name, src, want, words in progs:
         u, err = _run_prog(ctx, name, src, [], tmp)
